@@ -53,6 +53,10 @@ Proof.
   rewrite <- app_assoc; simpl. apply nth_error_mid.
 Qed.
 
+Lemma match_pred {A} (n : nat) (x : A) (f : nat -> A) :
+  0 < n -> match n with 0 => x | S j => f j end = f (n - 1).
+Proof. destruct n; [lia|]. intros _. simpl. now rewrite Nat.sub_0_r. Qed.
+
 Section Refine.
 Variables (mp mk : nat).
 
@@ -193,12 +197,12 @@ Proof.
                assert (Hpn : pre <> []) by (rewrite Epre; discriminate).
                assert (Hprev : nth_error url (length pre - 1) = Some prevc).
                { rewrite Hurl, (nth_error_last pre "x") by exact Hpn. f_equal. apply Hprevc, Hpn. }
-               assert (Hlp : length pre = S (length pre0)) by (rewrite Epre; reflexivity).
-               rewrite Hlp. unfold at_. replace (length pre0) with (length pre - 1) by lia. rewrite Hprev.
+               assert (Hlp : 0 < length pre) by (rewrite Epre; simpl; lia).
+               rewrite (match_pred _ _ _ Hlp).
+               unfold at_. rewrite Hprev.
                destruct (Ascii.eqb prevc "}"); simpl; [|eexists; reflexivity].
                destruct (Ascii.eqb (last s) "-"); [eexists; reflexivity|].
                destruct (max_label <? partlen s); [eexists; reflexivity|].
-               rewrite <- Hlp.
                cbn [paramCnt set_last set_partlen set_totallen set_countStatic].
                destruct (mp <? paramCnt s) eqn:Emp; [eexists; reflexivity|].
                eexists; split; [reflexivity|].
@@ -211,36 +215,38 @@ Proof.
                rel10 ltac:(exact Hhost') ltac:(exact Hdelim) ltac:(discriminate). }
            eexists; reflexivity.
         -- (* past the hostname, or the first '/' *)
-           assert (Hpcnt : paramCnt (set_countStatic (S (countStatic s)) (if host && Ascii.eqb c "/" then set_delim "/" s else s)) = paramCnt s)
-             by (destruct (host && Ascii.eqb c "/"); reflexivity).
-           rewrite Hpcnt.
-           destruct (mp <? paramCnt s) eqn:Emp; [eexists; reflexivity|].
-           eexists; split; [reflexivity|].
-           rel10 ltac:(rewrite <- Hhost'; exact Einh) ltac:(idtac) ltac:(idtac).
-           ++ (* delim *)
-              destruct host; simpl in *.
-              ** destruct (Ascii.eqb c "/"); [|discriminate]. reflexivity.
-              ** exact Hdelim.
-           ++ (* hostlast *)
-              cbn. intros _ Hpos. destruct host eqn:Eh.
-              ** assert (Hce : Ascii.eqb c "/" = true) by (destruct (Ascii.eqb c "/"); [reflexivity|discriminate]).
-                 rewrite Hce in Heq. simpl in Heq. apply Nat.eqb_eq in Heq.
-                 assert (Hpn : pre <> []) by (intros ->; simpl in Heq; lia).
-                 rewrite <- Heq, Hurl, (nth_error_last pre "x") by exact Hpn. f_equal. apply Hprevc, Hpn.
-              ** apply (Hhl eq_refl Hpos).
+           destruct (host && Ascii.eqb c "/") eqn:Efs.
+           ++ (* the first '/' *)
+              assert (Hh : host = true) by (destruct host; [reflexivity|discriminate]).
+              assert (Hce : Ascii.eqb c "/" = true) by (destruct (Ascii.eqb c "/"); [reflexivity|rewrite Hh in Efs; discriminate]).
+              cbn [paramCnt countStatic set_countStatic set_delim].
+              destruct (mp <? paramCnt s) eqn:Emp; [eexists; reflexivity|].
+              eexists; split; [reflexivity|].
+              rel10 ltac:(exact Hhost') ltac:(reflexivity) ltac:(idtac).
+              cbn. intros _ Hpos. rewrite Hh.
+              apply Nat.eqb_eq in Heq.
+              assert (Hpn : pre <> []) by (intros ->; simpl in Heq; lia).
+              rewrite <- Heq, Hurl, (nth_error_last pre "x") by exact Hpn. f_equal. apply Hprevc, Hpn.
+           ++ assert (Hh : host = false).
+              { destruct host; [|reflexivity]. destruct (Ascii.eqb c "/"); discriminate. }
+              cbn [paramCnt countStatic set_countStatic set_delim].
+              destruct (mp <? paramCnt s) eqn:Emp; [eexists; reflexivity|].
+              eexists; split; [reflexivity|].
+              rewrite Hh in Hdelim.
+              rel10 ltac:(exact Hhost') ltac:(exact Hdelim) ltac:(rewrite Hh; cbn; intros _; exact (Hhl Hh)).
   - (* param *)
-    unfold step_param, at_. rewrite Hi.
+    unfold step_param, at_. rewrite Hi, ?Hi1.
     dest_eqb c "}".
     + simpl. cbn [inParam set_inParam delim].
       destruct (inParam s); simpl; [|eexists; reflexivity].
-      rewrite Hlen. rewrite Hi1.
+      rewrite Hlen.
       assert (Hc : Ascii.eqb "}" "/" = false) by reflexivity.
       rewrite Hc, andb_true_r in Hlt, Hhost'.
       destruct r as [|n r']; simpl.
       * replace (S (length pre) <? length pre + 1) with false by (symmetry; apply Nat.ltb_ge; lia).
         eexists; split; [reflexivity|].
         rewrite Hlt.
-        rel10 ltac:(exact Hhost') ltac:(destruct host; cbn; exact Hdelim) ltac:(destruct host; exact Hhl).
+        destruct host; rel10 ltac:(exact Hhost') ltac:(exact Hdelim) ltac:(exact Hhl).
       * replace (S (length pre) <? length pre + S (S (length r'))) with true by (symmetry; apply Nat.ltb_lt; lia).
         rewrite Hdelim.
         destruct (Ascii.eqb n (ldelim hostne host) || Ascii.eqb n "/") eqn:En.
@@ -249,7 +255,7 @@ Proof.
              by (destruct En as [-> | ->]; simpl; [reflexivity|now rewrite andb_false_r]).
            simpl. eexists; split; [reflexivity|].
            rewrite Hlt.
-           rel10 ltac:(exact Hhost') ltac:(destruct host; cbn; exact Hdelim) ltac:(destruct host; exact Hhl).
+           destruct host; rel10 ltac:(exact Hhost') ltac:(exact Hdelim) ltac:(exact Hhl).
         -- apply orb_false_iff in En. destruct En as [-> ->]. simpl. eexists; reflexivity.
     + simpl.
       destruct (mk <? length pre - startParam s); [eexists; reflexivity|].
@@ -262,11 +268,11 @@ Proof.
       rewrite Ecs, andb_true_r in Hhost'.
       rel10 ltac:(exact Hhost') ltac:(exact Hdelim) ltac:(exact Hhl).
   - (* catch-all *)
-    unfold step_catchall, at_. rewrite Hi.
+    unfold step_catchall, at_. rewrite Hi, ?Hi1.
     dest_eqb c "}".
     + simpl. cbn [inParam set_inParam].
       destruct (inParam s); simpl; [|eexists; reflexivity].
-      rewrite Hlen, Hi1.
+      rewrite Hlen.
       assert (Hc : Ascii.eqb "}" "/" = false) by reflexivity.
       rewrite Hc, andb_true_r in Hhost'.
       destruct r as [|n r']; simpl.
